@@ -35,6 +35,9 @@ type cliCase struct {
 	Existing int `json:"existing,omitempty"`
 	// NameStyle: base name of the output file in lower (0), upper (1) or mixed (2) case
 	NameStyle int `json:"name_style,omitempty"`
+	// Alphabet: --alphabet is given, with the alphabet that is detected for every alignment of the
+	// input ("auto" when they differ)
+	Alphabet bool `json:"alphabet,omitempty"`
 	// Layout: presentation of a FASTA input (wrapping, blanks, CRLF, empty lines, no final newline)
 	Layout cli.Layout `json:"layout"`
 	// Reread: the output file is given to a second goalign reformat fasta -i <file>
@@ -66,6 +69,7 @@ func genCLI(t *rapid.T) cliCase {
 		}
 	}
 	c.Long = rapid.Bool().Draw(t, "long")
+	c.Alphabet = rapid.IntRange(0, 3).Draw(t, "alphabet") == 0
 	if c.In.Format == "fasta" {
 		c.Layout = cli.DrawLayout(t)
 		if c.Auto {
@@ -173,6 +177,7 @@ func checkCLI(c cliCase) (o pbt.Outcome, err error) {
 		}
 	}
 	// documented: reformat fasta takes the first alignment only; reformat phylip all of them
+	inputModels := want
 	if c.Out.Format != "phylip" {
 		want = want[:1]
 	}
@@ -200,6 +205,20 @@ func checkCLI(c cliCase) (o pbt.Outcome, err error) {
 	}
 	if c.In.Strict {
 		args = append(args, "--input-strict")
+	}
+	if c.Alphabet {
+		// the alphabet that is detected anyway, declared: nothing may change
+		alpha := alphaName(inputModels[0].Alphabet)
+		for _, m := range inputModels {
+			if m.Alphabet != inputModels[0].Alphabet {
+				alpha = "auto"
+			}
+		}
+		if alpha != "nt" && alpha != "aa" {
+			alpha = "auto"
+		}
+		args = append(args, "--alphabet", alpha)
+		o.Class("--alphabet %s", alpha)
 	}
 	stdin := ""
 	var inPath string
